@@ -150,10 +150,16 @@ def run_history(cfg, ops):
                     if impl_free > 0:
                         qty = impl_free
                         lhs, rhs = model.accepts(s, side, typ, qty, price)
-                        ambiguous = False if lhs <= rhs or abs(lhs - rhs) <= TOL * max(1, abs(rhs)) else ambiguous
-                        if abs(lhs - rhs) <= TOL * max(1, abs(rhs)):
-                            lhs = rhs  # the reported balance is the reference point: selling all of it is affordable by definition
-                        flags.add('sell-exactly-the-reported-free-base')
+                        if exact[0]:
+                            # (only while every quantity so far is a short decimal: once 17-digit quantities rest in the book, the sum
+                            # of a resting sell and this one is rounded to the nearest double and may exceed the balance by an ulp -
+                            # the same limit as for the ladder / flatten operations, see ASSUMPTIONS)
+                            ambiguous = False if lhs <= rhs or abs(lhs - rhs) <= TOL * max(1, abs(rhs)) else ambiguous
+                            if abs(lhs - rhs) <= TOL * max(1, abs(rhs)):
+                                lhs = rhs  # the reported balance is the reference point: selling all of it is affordable by definition
+                            flags.add('sell-exactly-the-reported-free-base')
+                        else:
+                            ambiguous = abs(lhs - rhs) <= TOL * max(1, abs(rhs))
                 expect_reject = lhs > rhs
                 what = f'submit-{side}-{typ}'
                 applied.append(['submit', si, side, typ, size_code, poff, ro])
